@@ -13,91 +13,115 @@ import (
 
 // recorder implements both handler interfaces and records which method the
 // registration table dispatched to.
-type recorder struct{ called string }
+type recorder struct {
+	called string
+	status nfstypes.Nfsstat3 // stamped into every NFS result: two dispatches can be told apart
+}
 
 func (r *recorder) NFSPROC3_NULL() { r.called = "NFSPROC3_NULL" }
 func (r *recorder) NFSPROC3_GETATTR(a nfstypes.GETATTR3args) (res nfstypes.GETATTR3res) {
 	r.called = "NFSPROC3_GETATTR"
+	res.Status = r.status
 	return
 }
 func (r *recorder) NFSPROC3_SETATTR(a nfstypes.SETATTR3args) (res nfstypes.SETATTR3res) {
 	r.called = "NFSPROC3_SETATTR"
+	res.Status = r.status
 	return
 }
 func (r *recorder) NFSPROC3_LOOKUP(a nfstypes.LOOKUP3args) (res nfstypes.LOOKUP3res) {
 	r.called = "NFSPROC3_LOOKUP"
+	res.Status = r.status
 	return
 }
 func (r *recorder) NFSPROC3_ACCESS(a nfstypes.ACCESS3args) (res nfstypes.ACCESS3res) {
 	r.called = "NFSPROC3_ACCESS"
+	res.Status = r.status
 	return
 }
 func (r *recorder) NFSPROC3_READLINK(a nfstypes.READLINK3args) (res nfstypes.READLINK3res) {
 	r.called = "NFSPROC3_READLINK"
+	res.Status = r.status
 	return
 }
 func (r *recorder) NFSPROC3_READ(a nfstypes.READ3args) (res nfstypes.READ3res) {
 	r.called = "NFSPROC3_READ"
+	res.Status = r.status
 	return
 }
 func (r *recorder) NFSPROC3_WRITE(a nfstypes.WRITE3args) (res nfstypes.WRITE3res) {
 	r.called = "NFSPROC3_WRITE"
+	res.Status = r.status
 	return
 }
 func (r *recorder) NFSPROC3_CREATE(a nfstypes.CREATE3args) (res nfstypes.CREATE3res) {
 	r.called = "NFSPROC3_CREATE"
+	res.Status = r.status
 	return
 }
 func (r *recorder) NFSPROC3_MKDIR(a nfstypes.MKDIR3args) (res nfstypes.MKDIR3res) {
 	r.called = "NFSPROC3_MKDIR"
+	res.Status = r.status
 	return
 }
 func (r *recorder) NFSPROC3_SYMLINK(a nfstypes.SYMLINK3args) (res nfstypes.SYMLINK3res) {
 	r.called = "NFSPROC3_SYMLINK"
+	res.Status = r.status
 	return
 }
 func (r *recorder) NFSPROC3_MKNOD(a nfstypes.MKNOD3args) (res nfstypes.MKNOD3res) {
 	r.called = "NFSPROC3_MKNOD"
+	res.Status = r.status
 	return
 }
 func (r *recorder) NFSPROC3_REMOVE(a nfstypes.REMOVE3args) (res nfstypes.REMOVE3res) {
 	r.called = "NFSPROC3_REMOVE"
+	res.Status = r.status
 	return
 }
 func (r *recorder) NFSPROC3_RMDIR(a nfstypes.RMDIR3args) (res nfstypes.RMDIR3res) {
 	r.called = "NFSPROC3_RMDIR"
+	res.Status = r.status
 	return
 }
 func (r *recorder) NFSPROC3_RENAME(a nfstypes.RENAME3args) (res nfstypes.RENAME3res) {
 	r.called = "NFSPROC3_RENAME"
+	res.Status = r.status
 	return
 }
 func (r *recorder) NFSPROC3_LINK(a nfstypes.LINK3args) (res nfstypes.LINK3res) {
 	r.called = "NFSPROC3_LINK"
+	res.Status = r.status
 	return
 }
 func (r *recorder) NFSPROC3_READDIR(a nfstypes.READDIR3args) (res nfstypes.READDIR3res) {
 	r.called = "NFSPROC3_READDIR"
+	res.Status = r.status
 	return
 }
 func (r *recorder) NFSPROC3_READDIRPLUS(a nfstypes.READDIRPLUS3args) (res nfstypes.READDIRPLUS3res) {
 	r.called = "NFSPROC3_READDIRPLUS"
+	res.Status = r.status
 	return
 }
 func (r *recorder) NFSPROC3_FSSTAT(a nfstypes.FSSTAT3args) (res nfstypes.FSSTAT3res) {
 	r.called = "NFSPROC3_FSSTAT"
+	res.Status = r.status
 	return
 }
 func (r *recorder) NFSPROC3_FSINFO(a nfstypes.FSINFO3args) (res nfstypes.FSINFO3res) {
 	r.called = "NFSPROC3_FSINFO"
+	res.Status = r.status
 	return
 }
 func (r *recorder) NFSPROC3_PATHCONF(a nfstypes.PATHCONF3args) (res nfstypes.PATHCONF3res) {
 	r.called = "NFSPROC3_PATHCONF"
+	res.Status = r.status
 	return
 }
 func (r *recorder) NFSPROC3_COMMIT(a nfstypes.COMMIT3args) (res nfstypes.COMMIT3res) {
 	r.called = "NFSPROC3_COMMIT"
+	res.Status = r.status
 	return
 }
 func (r *recorder) MOUNTPROC3_NULL() { r.called = "MOUNTPROC3_NULL" }
@@ -139,6 +163,29 @@ func cmdDispatch(fs *flag.FlagSet, args []string) {
 		}
 		emit("disp %d %d %d %s %d", g.Prog, g.Vers, g.Proc, r.called, ok)
 	}
+	// a reply object belongs to ONE request: the RPC server encodes the result after the wrapper has returned, while
+	// other requests are being dispatched (one goroutine per request, all sharing one wrapper).  Dispatch A, encode its
+	// result, dispatch B with a different outcome, encode A's result again: the bytes must be the same.
+	//	dispr <prog> <vers> <proc> <encoding of A's result before B> <after B>
+	for _, g := range regs {
+		if g.Prog != 100003 || g.Proc == 0 {
+			continue
+		}
+		r.status = nfstypes.NFS3ERR_PERM
+		resA, errA := g.Handler(xdr.MakeReader(make([]byte, 512)))
+		if errA != nil || resA == nil {
+			continue
+		}
+		before, _ := realEncode(resA)
+		before = append([]byte(nil), before...)
+		for k := 0; k < 3; k++ { // (a pool may hand the object out again only on a later call)
+			r.status = nfstypes.NFS3ERR_NOENT
+			g.Handler(xdr.MakeReader(make([]byte, 512)))
+		}
+		after, _ := realEncode(resA)
+		emit("dispr %d %d %d %s %s", g.Prog, g.Vers, g.Proc, hexOr(before), hexOr(after))
+	}
+	r.status = 0
 	if *descPath == "" {
 		return
 	}
